@@ -484,7 +484,7 @@ def validate_hc(ctx, traces):
     tf = dump(ctx, "trace_c11.json", [{k: t[k] for k in fields} for t in traces if not t.get("exc")])
     for t in traces:
         if t.get("exc"):
-            ctx.violation({"api": "HillClimbSearch.estimate", "clause": "does_not_terminate" if t["exc"].startswith("does_not_terminate") else "raises",
+            ctx.violation({"api": "HillClimbSearch.estimate", "clause": "does_not_terminate" if t["exc"].startswith("does_not_terminate") else (t["exc"] if t["exc"].startswith("data_or_edge") else "raises"),
                            "features": {"score": t["case"]["score"]},
                            "case": {"kind": "hc_rec", "case": t["case"], "hashseed": t["hashseed"]}, "observed": t["exc"]})
     r = ctx.tlc("Trace_C11", CFG_T, env={"TRACE_FILE": tf}, tag="Trace", coverage=True, timeout=7200)
@@ -810,12 +810,19 @@ def _hc_call(case, rng, log_events):
     if case.get("sabotage") == "flip_cycle":        # selftest only: break the dependency the flip test relies on
         real_asp = nx.all_simple_paths
         nx.all_simple_paths = lambda *a, **k: iter(())
+    import copy
+    from ..frames import df_snapshot
+    data_snap = df_snapshot(data)
+    args_snap = copy.deepcopy({k: kw[k] for k in ("fixed_edges", "black_list", "white_list") if k in kw})
     try:
         res = est.estimate(**kw)
     finally:
         if case.get("sabotage") == "flip_cycle":
             nx.all_simple_paths = real_asp
-    return {"final": [[inv[u], inv[v]] for u, v in res.edges()], "final_nodes": [inv.get(x, str(x)) for x in res.nodes()],
+    # C16: the search changes neither the data nor the edge lists it was given (start_dag: "start_after")
+    args_same = df_snapshot(data) == data_snap and all(kw[k] == v for k, v in args_snap.items())
+    return {"args_same": args_same,
+            "final": [[inv[u], inv[v]] for u, v in res.edges()], "final_nodes": [inv.get(x, str(x)) for x in res.nodes()],
             "start_after": [[inv[u], inv[v]] for u, v in start.edges()] if start is not None else case["start"],
             "ev": events, "tab": tab, "pe": pe}
 
@@ -838,6 +845,8 @@ def _hc_record(case, hs):
         return t
     t.update({k: case[k] for k in ("nodes", "bit", "fixed", "black", "white", "maxin", "tabu", "eps", "maxiter", "tol", "start")})
     t.update(r)
+    if not r["args_same"]:
+        t["exc"] = "data_or_edge_list_argument_changed"
     return t
 
 
@@ -861,6 +870,8 @@ def _hc_gen(t, inst, rng, hs, out):
     elif ekey(r["final"]) not in g["finals"]:
         out["fails"].append({"api": "HillClimbSearch.estimate", "clause": "result_not_a_terminal_state_of_the_spec", "features": feat,
                              "observed": sorted(r["final"]), "expected": [json.loads(f) for f in g["finals"][:4]]})
+    if not r["args_same"]:
+        out["fails"].append({"api": "HillClimbSearch.estimate", "clause": "data_or_edge_list_argument_changed", "features": {}, "observed": None})
     if ekey(r["start_after"]) != ekey(g["start"]):
         out["fails"].append({"api": "HillClimbSearch.estimate", "clause": "start_dag_mutated", "features": {},
                              "observed": {"start": g["start"], "start_after": sorted(r["start_after"])}})
